@@ -18,6 +18,8 @@ only = sys.argv[sys.argv.index("--only") + 1] if "--only" in sys.argv else ""
 def one(sid):
     d = os.path.join(VERIF, "seeded", sid)
     meta = json.load(open(os.path.join(d, "meta.json")))
+    if meta.get("obsolete_since"):
+        return sid, "OBSOLETE", "no longer a behaviour change on the current tree (see meta.json)"
     props = ",".join(dict.fromkeys([meta["breaks_property"]] + list(meta.get("caught_by") or [])))
     r = subprocess.run([sys.executable, os.path.join(VERIF, "tools", "seedcheck.py"), d, "--props", props, "--no-tests"],
                        capture_output=True, text=True)
